@@ -102,6 +102,10 @@ func svBlock(app *App, height int64, nv int, txs []action.SignedTx, hook func(po
 		LastCommitInfo: abci.LastCommitInfo{Votes: svVotes(nv, 3000000)},
 	}
 	app.blockBeginner()(req)
+	// the store gas of the block's transactions is the environment's arbitrary
+	// number in both worlds (the engine does not model record sizes; with the real
+	// calculator the native run would charge different fees than the engine)
+	app.Context.deliver = app.Context.deliver.WithGas(svEnvGas())
 	call()
 	for _, tx := range txs {
 		r := svDeliver(app, tx)
@@ -120,3 +124,16 @@ func svBlock(app *App, height int64, nv int, txs []action.SignedTx, hook func(po
 }
 
 var _ = storage.NewState
+
+// svEnvGas: the environment gas calculator with the shared input "gas.used".
+func svEnvGas() *svGasCalc {
+	used := sv.Int64("gas.used")
+	sv.Assume(used >= 0 && used < 1<<40)
+	return &svGasCalc{used: storage.Gas(used)}
+}
+
+// svCheckEnvGas: CheckTx with the environment gas calculator on the check state.
+func svCheckEnvGas(app *App, tx action.SignedTx) ResponseCheckTx {
+	app.Context.check = app.Context.check.WithGas(svEnvGas())
+	return svCheck(app, tx)
+}
